@@ -193,6 +193,43 @@ func c16Gen(seed uint64, kind string) *c16Tx {
 			t.plan, t.jp = bindPlan(rr, sc, 40, []uint32{0, 10}, 0), true
 		}
 		return t
+	case "hygiene":
+		// frames whose outcome would depend on anything left behind in a reused operand stack or memory buffer:
+		// callees that underflow, fill the stack to exactly 1024, read memory they never wrote - run before and
+		// after a callee that leaves a deep stack and a large, fully written memory behind
+		f := h.Pick(r, []h.Fork{h.Frontier, h.Byzantium, h.Berlin, h.Shanghai, h.Cancun})
+		under := h.NewAsm().Op(byte(h.DUP1+r.Intn(16))).PushU(0).Op(h.SSTORE, h.STOP).Bytes()
+		full := h.NewAsm()
+		for i := 0; i < 1024; i++ {
+			full.Op(h.PUSH1, byte(i))
+		}
+		full.PushU(0).Op(h.MLOAD) // the 1025th word: stack limit
+		fresh := h.NewAsm().PushU(uint64(32*r.Intn(60))).Op(h.MLOAD).PushU(1).Op(h.SSTORE, h.MSIZE).PushU(2).Op(h.SSTORE).PushU(32).PushU(uint64(64+32*r.Intn(8))).Op(h.RETURN).Bytes()
+		deep := h.NewAsm()
+		for i := 0; i < 20+r.Intn(30); i++ {
+			deep.Push(r.U256())
+		}
+		for i := 0; i < 70; i++ {
+			deep.Push(r.U256()).PushU(uint64(32 * i)).Op(h.MSTORE)
+		}
+		if r.Bool() {
+			deep.PushU(64).PushU(uint64(32*r.Intn(60))).Op(h.REVERT)
+		} else {
+			deep.PushU(64).PushU(uint64(32*r.Intn(60))).Op(h.RETURN)
+		}
+		top := h.NewAsm()
+		slot := uint64(10)
+		call := func(i int) {
+			top.PushU(32).PushU(0x40).PushU(0).PushU(0).PushU(0).PushAddr(h.ContractAddr(i)).PushU(300000).Op(h.CALL).PushU(slot).Op(h.SSTORE)
+			top.PushU(0x40).Op(h.MLOAD).PushU(slot + 1).Op(h.SSTORE)
+			slot += 2
+		}
+		for _, i := range []int{1, 2, 3, 4, 1, 3, 2, 4, 3, 1} {
+			call(i)
+		}
+		top.Op(h.STOP)
+		tx := h.TxSpec{Entry: h.ECall, From: h.Sender, To: h.ContractAddr(0), Gas: 8_000_000}
+		return &c16Tx{world: h.BaseWorld([][]byte{top.Bytes(), under, full.Bytes(), fresh, deep.Bytes()}), env: h.EnvSpec{Fork: f}, txs: []h.TxSpec{tx, tx}, desc: fmt.Sprintf("stack/memory hygiene program on %s", f)}
 	default: // "gen": a standard program, possibly with extra EIPs, two transactions
 		dc := genDual(seed, h.Cancun, func(o *h.GenOpts) { o.Cancun = true; o.Push0 = true })
 		tx2 := dc.Tx
@@ -224,7 +261,7 @@ func init() {
 	Register(&Prop{
 		ID:    "C16",
 		Level: "exploration",
-		Rule: "kind rep: the same transaction (journal-heavy programs registering 5-8 children per node under the root, a mapping and an array; journal call trees with and without real Aspects; standard programs with extra EIPs, two transactions) is executed K times on equal pre-state in fresh EVMs inside one process (Go re-randomises map iteration per range statement, so K repetitions sample orders); the canonical serialisation - return data, gas, error, state root, logs, full call tree, balance journals and EVERY list-valued query (Children, ChildrenIndices, IndicesOfChanges, ChildrenOf, call-tree children) in the order returned - and the complete hook dump must be byte-identical; " +
+		Rule: "kind rep: the same transaction (journal-heavy programs registering 5-8 children per node under the root, a mapping and an array; journal call trees with and without real Aspects; standard programs with extra EIPs, two transactions; hygiene programs whose callees underflow, fill the stack to 1024 words or read memory they never wrote, before and after a callee that leaves a deep stack and a large written memory behind) is executed K times on equal pre-state in fresh EVMs inside one process (Go re-randomises map iteration per range statement, so K repetitions sample orders); the canonical serialisation - return data, gas, error, state root, logs, full call tree, balance journals and EVERY list-valued query (Children, ChildrenIndices, IndicesOfChanges, ChildrenOf, call-tree children) in the order returned - and the complete hook dump must be byte-identical; " +
 			"kind xproc: the same transactions re-run in another worker process, serialisations compared across processes; kind iso: execution A alone vs A with an unrelated execution B (other program, other EVM, other state, possibly other extra EIPs on the same fork) run to completion in the middle of A (inside A's step callback) and between A's transactions: A's serialisation and dump must not change, nor B's; the shared 256-bit constants are compared with their initial values after every case (canary); distinct_nontrivial = distinct serialisations",
 		Assumptions: []string{"K = 30 (quick) / 200 (thorough) repetitions sample map iteration orders; with 5 children the chance that a map-order dependence shows no second order in 30 runs is below 1e-9"},
 		Cases: func(seed uint64, tier string) []Case {
@@ -234,7 +271,7 @@ func init() {
 			}
 			var cs []Case
 			for i := 0; i < n; i++ {
-				for _, k := range []string{"children", "tree", "gen"} {
+				for _, k := range []string{"children", "tree", "gen", "hygiene"} {
 					cs = append(cs, Case{Kind: "rep", S: k, Seed: h.Mix(seed, 0xC16, uint64(i))})
 				}
 				cs = append(cs, Case{Kind: "iso", Seed: h.Mix(seed, 0xC16A, uint64(i))})
@@ -314,7 +351,7 @@ func runC16(c Case, tier string) (res CaseResult) {
 		}
 		res.Evals = int64(K)
 		res.Shape(base)
-		if c.S != "gen" {
+		if c.S != "gen" && c.S != "hygiene" {
 			res.Set(fmt.Sprintf("_ser_%s_%x", c.S, c.Seed), fmt.Sprintf("%x", crypto.Keccak256([]byte(base + baseDump))[:12]))
 		}
 		checkCanary(&res, t.desc)
@@ -329,8 +366,8 @@ func runC16(c Case, tier string) (res CaseResult) {
 		res.Evals = 1
 	case "iso":
 		r := h.NewRNG(c.Seed)
-		a := c16Gen(h.Mix(c.Seed, 1), h.Pick(r, []string{"children", "tree", "gen"}))
-		b := c16Gen(h.Mix(c.Seed, 2), h.Pick(r, []string{"children", "tree", "gen"}))
+		a := c16Gen(h.Mix(c.Seed, 1), h.Pick(r, []string{"children", "tree", "gen", "hygiene"}))
+		b := c16Gen(h.Mix(c.Seed, 2), h.Pick(r, []string{"children", "tree", "gen", "hygiene"}))
 		if c.Seed%5 == 0 {
 			// A reaches the context-write precompile by a call kind that carries no caller identity,
 			// B (another EVM) by an ordinary CALL: whatever B leaves behind must not change A's outcome
